@@ -126,6 +126,39 @@ def tlc_batch(module, cfg, workdir, env, expect, **kw):
     return r
 
 
+def tlc_batch_chunked(module, cfg, workdir, items, envkey="SCCV_PROGS", max_bytes=30_000_000, extra_env=None, **kw):
+    """items: list of JSON-serialisable cases, one RESULT line each.  TLC reads its input as one constant and stalls beyond
+    ~50 MB, so the items are split into runs of at most max_bytes of JSON; the merged result has the same shape as tlc_batch's."""
+    chunks, cur, size = [], [], 0
+    for it in items:
+        n = len(json.dumps(it))
+        if cur and size + n > max_bytes:
+            chunks.append(cur)
+            cur, size = [], 0
+        cur.append(it)
+        size += n
+    if cur:
+        chunks.append(cur)
+    merged = None
+    for i, ch in enumerate(chunks):
+        d = os.path.join(workdir, "chunk%d" % i)
+        os.makedirs(d, exist_ok=True)
+        fp = os.path.join(d, "items.json")
+        json.dump(ch, open(fp, "w"))
+        env = dict(extra_env or {})
+        env[envkey] = fp
+        r = tlc_batch(module, cfg, d, env, len(ch), **kw)
+        if merged is None:
+            merged = r
+        else:
+            merged["results"] += r["results"]
+            for k_ in ("states", "distinct", "wall"):
+                merged[k_] = (merged[k_] or 0) + (r[k_] or 0)
+    if merged is None:
+        raise ToolError("tlc_batch_chunked: no items")
+    return merged
+
+
 # ---------------------------------------------------------------- AxCut program indexing for the specs
 def index_axcut(prog):
     prog = dict(prog)
